@@ -203,6 +203,10 @@ const DirMarker = "\x00dir"
 // LinkMarker prefixes the recorded content of a symbolic link.
 const LinkMarker = "\x00symlink:"
 
+// LinkStoreName: the directory (below the package directory) where the checker keeps
+// files it replaced by symbolic links.
+const LinkStoreName = "zz_linkstore"
+
 func ReadDisk(root string, skip func(nominal string) bool) (Disk, error) {
 	d := Disk{}
 	// A symbolic link to a directory is a second name of that directory: its content is
@@ -246,6 +250,16 @@ func ReadDisk(root string, skip func(nominal string) bool) (Disk, error) {
 				target, lerr := os.Readlink(p)
 				if lerr != nil {
 					return lerr
+				}
+				if fi, serr := os.Stat(p); serr == nil && fi.Mode().IsRegular() && strings.Contains(target, "/"+LinkStoreName+"/") {
+					// a predicted snapshot file that the driver turned into a link to the same
+					// content kept in the link store: reported with the content it shows
+					b, rerr := os.ReadFile(p)
+					if rerr != nil {
+						return rerr
+					}
+					d[nom] = b
+					return nil
 				}
 				d[nom] = []byte(LinkMarker + target)
 				if fi, serr := os.Stat(p); serr == nil && fi.IsDir() {
